@@ -1094,10 +1094,32 @@ def _same_sort(a, b):
 class SymMath:
     """Replacement for the `math` module inside loaded namespaces."""
 
-    pi = math.pi
+    @property
+    def pi(self):
+        from .angles import PiMultiple
+
+        return PiMultiple(2)
 
     def __getattr__(self, name):
         return getattr(math, name)
+
+    @staticmethod
+    def radians(x):
+        from .angles import radians
+
+        return radians(x)
+
+    @staticmethod
+    def cos(x):
+        from .angles import SymAngle
+
+        return x.c if isinstance(x, SymAngle) else math.cos(x)
+
+    @staticmethod
+    def sin(x):
+        from .angles import SymAngle
+
+        return x.s if isinstance(x, SymAngle) else math.sin(x)
 
     @staticmethod
     def ceil(x):
